@@ -270,6 +270,25 @@ class Engine:
                 p.on_raise(st, d)
                 fl.exc.add(freeze(d))
             return fl
+        ex = getattr(p, "exec_stmt", None)
+        if ex is not None and isinstance(st, (ast.Assign, ast.AugAssign,
+                                             ast.Expr, ast.AnnAssign)) and \
+                not (isinstance(st, ast.Expr) and isinstance(
+                    st.value, (ast.Yield, ast.YieldFrom))):
+            # plugin-level execution of simple statements; may fork
+            handled = True
+            outs = set()
+            for x in states:
+                d = thaw(x)
+                r = ex(st, d)
+                if r is NotImplemented:
+                    handled = False
+                    break
+                for y in (r if r is not None else [d]):
+                    outs.add(freeze(y))
+            if handled:
+                fl.normal = outs
+                return fl
         if isinstance(st, ast.Assign):
             def f(d):
                 v = p.eval(st.value, d)
